@@ -589,7 +589,7 @@ theorem afterTopK_spec_fix_on {o : Ops α} (h : OrdLawsOn o) (ha : ArithLawsOn o
     (P : Params α) (r : α) (L : List (Tok α)) (t : Tok α)
     (hres : afterTopK o true P r L = .ok t) :
     ∃ L1, shiftMax o L = .ok L1 ∧
-    (runGood o P r L1 = true → (∀ v ∈ L1.map (·.val), o.isNaN v = false) →
+    (runGood o P r L1 = true →
      guardOK o (scaledOf o P L1) = true →
      scaleOK o (L.map (·.val)) (L1.map (·.val)) = true →
      scaleOK o (L1.map (·.val)) (scaledOf o P L1) = true →
@@ -600,7 +600,7 @@ theorem afterTopK_spec_fix_on {o : Ops α} (h : OrdLawsOn o) (ha : ArithLawsOn o
       f[idx]? = some x ∧ x.id = t.id) := by
   obtain ⟨L1, hs, h1⟩ := afterTopK_fix o P r L t hres
   refine ⟨L1, hs, ?_⟩
-  intro hrg hL1 hg hsh hsc hsm
+  intro hrg hg hsh hsc hsm
   obtain ⟨hS, hP, e1, e2, e3, _⟩ := runGood_stages h.negInf P r L1 hrg
   have hsc_eq : scaledOf (totalize o) P L1 = scaledOf o P L1 := scaleVals_totalize o _ _
   have hsm_eq : softmaxVals (totalize o) (scaledOf o P L1) = softmaxVals o (scaledOf o P L1) :=
